@@ -394,3 +394,7 @@ func vh_C05_step_clear_range() {
 // first SACK never covers a TSN that was not received (= C04.L1 / L1b, which assert it).
 func vh_C05_L7_initial_cumulative_point_client_server()     { vh_C04_L1_client_server() }
 func vh_C05_L7_initial_cumulative_point_simultaneous_open() { vh_C04_L1_simultaneous_open() }
+
+// C05.L9: a chunk that was dropped because its TSN lies outside the window is never marked
+// as received, so no SACK ever names it (= C01.L4).
+func vh_C05_L9_dropped_chunk_is_never_marked_received() { vh_C01_L4_duplicate_suppression() }
